@@ -83,6 +83,23 @@ Definition rollback (d : db) (e : effect) : db :=
        (put (nkey (e_num e - 1)) (e_parent e) (del (nkey (e_num e)) (canon d)))
        (e_parent e).
 
+(* Two rollbacks the source must NOT be (Proofs: both resurrect an output that the rolled-back
+   block created AND spent — tx2 spends an output of tx1 of the same block — and both are exact for
+   every block without such an output, which is why only intra-block chains tell them apart):
+   - [rollback_delete_first]: the created keys are deleted BEFORE spent++trimmed are re-created
+     (the two loops write into one batch: the last write of a key wins);
+   - [rollback_skip_absent]: the delete of a created key is skipped when the key is not in the
+     DATABASE (the batch holding the re-creating Put is not consulted). *)
+Definition rollback_delete_first (d : db) (e : effect) : db :=
+  mkDb (put_all (e_spent e ++ e_trimmed e) (del_all (map strip_den (e_created_keys e)) (utxo d)))
+       (lockups (rollback d e)) (canon (rollback d e)) (head (rollback d e)).
+Definition presentb {V} (k : key) (m : smap V) : bool :=
+  match get k m with Some _ => true | None => false end.
+Definition rollback_skip_absent (d : db) (e : effect) : db :=
+  mkDb (del_all (filter (fun k => presentb k (utxo d)) (map strip_den (e_created_keys e)))
+                (put_all (e_spent e ++ e_trimmed e) (utxo d)))
+       (lockups (rollback d e)) (canon (rollback d e)) (head (rollback d e)).
+
 Definition apply_all (d : db) (es : list effect) : db := fold_left apply es d.
 Definition rollback_all (d : db) (es : list effect) : db := fold_left rollback es d.
 
@@ -306,7 +323,21 @@ Definition rollback_order_ok : bool :=
   && before "WriteHeadBlockHash" "WriteCanonicalHash" rollback_calls
   && before "WriteCanonicalHash" "batch.Write" rollback_calls
   && deleted_lockups_restored_in_reverse
-  && Nat.eqb (List.length (filter (String.eqb "batch.Write") rollback_calls)) 1.
+  && Nat.eqb (List.length (filter (String.eqb "batch.Write") rollback_calls)) 1
+  (* outputs are re-created once (before the deletes: line 4 above), lockups restored once *)
+  && Nat.eqb (List.length (filter (String.eqb "CreateUTXO") rollback_calls)) 1
+  && Nat.eqb (List.length (filter (String.eqb "batch.Put") rollback_calls)) 1.
+
+(* the four write loops of the rollback are the ones of [rollback], in its order, and each write is
+   reached on every iteration (no guard, no continue/break): [del_all]/[put_all] over the whole
+   undo record, not over a filtered part of it *)
+Definition rollback_writes_ok : bool :=
+  match rollback_write_loops with
+  | [(a, ua); (b, ub); (c, uc); (d, ud)] =>
+      String.eqb a "CreateUTXO" && String.eqb b "batch.Delete" && String.eqb c "batch.Put"
+      && String.eqb d "batch.Delete" && ua && ub && uc && ud
+  | _ => false
+  end.
 
 Definition key_lengths_ok : bool :=
   N.eqb utxo_key_length 36 && N.eqb utxo_key_with_denomination_length 37 && N.eqb coinbase_lockup_key_length 47.
